@@ -174,9 +174,11 @@ def _run_stages(st, p, work, fn_set):
         elif st["rewrite"] == "restore":
             arr[0, 2] = arr[1, 2]
         np.savetxt(dd + "/d.dat", arr)
+    fn_set = st.get("fn_set", fn_set)
     for sg in st.get("stages", list(stages.STAGES)):
         kw = dict(STAGE_KW[sg])
         kw.update(p.get("kwargs", {}).get(sg, {}))
+        kw.update(st.get("kwargs", {}).get(sg, {}))
         if P == 1:
             with quiet():
                 stages._stage_entry(sg, comp, "GaussLikelihood", "d.dat", rn, dd, fn_set, kw)
